@@ -85,35 +85,7 @@ pub fn total_one(bytes: &[u8]) -> Result<String, Fail> {
 }
 
 fn total_one_inner(bytes: &[u8]) -> Result<String, Fail> {
-    let show = || hex_short(bytes);
-    // blocking
-    let b = bytes.to_vec();
-    let class = match catch(move || IppParser::new(IppReader::new(std::io::Cursor::new(b))).parse()) {
-        Err(p) => return Err(Fail::new(format!("C02/{}", panic_sig(&p)), format!("blocking parser panicked: {p}; bytes={}", show()))),
-        Ok(Err(e)) => err_outcome(&e).class(),
-        Ok(Ok(m)) => {
-            if let Err(p) = exercise(m) {
-                return Err(Fail::new(format!("C02/result-{}", panic_sig(&p)), format!("using the parsed result (display/debug/encode/traverse/clone/drop) panicked: {p}; bytes={}", show())));
-            }
-            "Ok".to_string()
-        }
-    };
-    // async: whole and one byte at a time (with a not-ready result at every other boundary)
-    for sched in [Schedule::whole(), Schedule::uniform(bytes.len(), 1).with_stalls(0x5a5a_1234_9876_fedc)] {
-        let (src, c) = Scripted::new(bytes.to_vec(), sched, None);
-        let r = catch(move || drive(async move { AsyncIppParser::new(AsyncIppReader::new(src)).parse().await }, &[&c], POLL_BUDGET));
-        match r {
-            Err(p) => return Err(Fail::new(format!("C02/{}", panic_sig(&p)), format!("async parser panicked: {p}; bytes={}", show()))),
-            Ok(Err(e)) => return Err(Fail::new(format!("C02/async-{e:?}"), format!("async parser did not complete: {e:?}; bytes={}", show()))),
-            Ok(Ok(Err(_))) => {}
-            Ok(Ok(Ok(m))) => {
-                if let Err(p) = exercise(m) {
-                    return Err(Fail::new(format!("C02/result-{}", panic_sig(&p)), format!("using the async result panicked: {p}; bytes={}", show())));
-                }
-            }
-        }
-    }
-    Ok(class)
+    vcore::oracles::total_core(bytes)
 }
 
 /// The stand-alone value decoder on (tag, body); an Ok value is displayed, encoded, cloned, dropped.
@@ -199,6 +171,9 @@ pub const FAMILIES: &[&str] = &[
     "set-of-collections", // n empty collections as values of one attribute
     "member-names-only",  // one collection with n memberAttrNames and no values
     "max-values",         // attributes with 65535-byte values
+    "nest-across-groups", // 100 open collections, a group delimiter + named attribute, 100 more, ... ; closed at the end
+    "nest-across-attrs",  // 100 open collections, a named attribute, 100 more, ... ; closed at the end
+    "nest-reopen",        // open 100, close 99, open 100, close 99, ... (net depth grows by one per round)
 ];
 
 pub fn bomb_input(family: &str, n: usize, variant: &str) -> Vec<u8> {
@@ -321,6 +296,42 @@ pub fn bomb_input(family: &str, n: usize, variant: &str) -> Vec<u8> {
             }
             endc(&mut b);
         }
+        "nest-across-groups" | "nest-across-attrs" => {
+            let rounds = n.div_ceil(100).max(1);
+            for r in 0..rounds {
+                if r == 0 {
+                    named_beg(&mut b);
+                } else {
+                    if family == "nest-across-groups" {
+                        b.push([0x02u8, 0x04, 0x05, 0x01][r % 4]);
+                    }
+                    // a named attribute, then the nesting continues with member names so that every
+                    // level stays attached to its parent
+                    b.extend_from_slice(&[0x21, 0, 1, b'x', 0, 4, 0, 0, 0, 1]);
+                    member(&mut b, b"m");
+                    beg(&mut b);
+                }
+                for _ in 1..100 {
+                    member(&mut b, b"m");
+                    beg(&mut b);
+                }
+            }
+            for _ in 0..rounds * 100 {
+                endc(&mut b);
+            }
+        }
+        "nest-reopen" => {
+            named_beg(&mut b);
+            for _ in 0..n.div_ceil(199).max(1) {
+                for _ in 0..100 {
+                    member(&mut b, b"m");
+                    beg(&mut b);
+                }
+                for _ in 0..99 {
+                    endc(&mut b);
+                }
+            }
+        }
         _ => {
             // max-values: n attributes of 65535 octets
             for i in 0..n {
@@ -359,6 +370,8 @@ fn unit_bytes(family: &str) -> usize {
         "many-members" => 18,
         "set-of-collections" => 10,
         "member-names-only" => 10,
+        "nest-across-groups" | "nest-across-attrs" => 16,
+        "nest-reopen" => 16,
         _ => 65545,
     }
 }
